@@ -980,7 +980,8 @@ def run_G(case):
                                 # piecewise constant: a collocation time on a knot belongs to the interval it closes
                                 f += wt[kind] * float(cg[0][k])
                             else:
-                                f += wt[kind] * float(spline_eval(list(tc), dg, cg, np.array([t_j]))[0][0])
+                                # (a collocation time on the last knot may exceed it by one ulp: outside the spline's support)
+                                f += wt[kind] * float(spline_eval(list(tc), dg, cg, np.array([min(max(t_j, tc[0]), tc[-1])]))[0][0])
                             res["counters"]["spline_points"] += 1
                         elif kind in ("parc", "varc"):
                             f += wt[kind] * float(vals[kind].reshape(-1)[k])
